@@ -90,6 +90,32 @@ func c14Run(kind, n int, h []int) (log []int, fires int) {
 	return
 }
 
+// skipBuilder: an event definition instance builder that has no instance for the skip-th definition it is asked for
+// (as the timer builder has none for a message or signal definition): no event can ever be matched against it
+type skipBuilder struct {
+	calls, skip int
+}
+
+func (b *skipBuilder) NewEventDefinitionInstance(def schema.EventDefinitionInterface) (event.IDefinitionInstance, error) {
+	k := b.calls
+	b.calls++
+	if k == b.skip {
+		return nil, nil
+	}
+	return event.WrapEventDefinition(def), nil
+}
+
+// c14NewSkipping: like c14New for catch events, with a builder that cannot instantiate definition `skip`
+func c14NewSkipping(kind, n, skip int) satisfier {
+	msgs, sigs := c14Defs(n)
+	ce := schema.DefaultCatchEvent()
+	ce.SetMessageEventDefinitions(msgs)
+	ce.SetSignalEventDefinitions(sigs)
+	par := kind == 1
+	ce.SetParallelMultiple(&par)
+	return logic.NewCatchEventSatisfier(&ce, &skipBuilder{skip: skip})
+}
+
 // c14Step feeds one event to a satisfier; same log code as c14Run
 func c14Step(s satisfier, n, e int) (code int, fired bool) {
 	m, c := s.Satisfy(c14Event(n, e))
@@ -283,6 +309,61 @@ func runC14(env *Env) {
 			}
 			items = append(items, fmt.Sprintf("(%d,%d,%s,%s)", kind, n, natList(pr[0]), natList(flagsOf(pr[1]))))
 		}
+	}
+	// a definition the builder cannot instantiate is a definition no event matches: a parallel-multiple catch event
+	// with such a definition never fires, a plain multiple one fires on the others (the model is asked with the
+	// events of that definition replaced by the non-matching symbol)
+	nSkip := 120
+	if env.Thorough() {
+		nSkip = 1200
+	}
+	for i := 0; i < nSkip; i++ {
+		kind := rng.Intn(2)
+		n := 2 + rng.Intn(maxN-1)
+		skip := rng.Intn(n)
+		h := make([]int, 2+rng.Intn(8))
+		for j := range h {
+			h[j] = rng.Intn(n + 1)
+		}
+		cs := fmt.Sprintf("kind=%d n=%d, no instance for definition %d, history=%v", kind, n, skip, h)
+		env.Current(cs)
+		var log []int
+		panicked := ""
+		func() {
+			defer func() {
+				if r := recover(); r != nil {
+					panicked = fmt.Sprint(r)
+				}
+			}()
+			sat := c14NewSkipping(kind, n, skip)
+			for _, e := range h {
+				c, _ := c14Step(sat, n, e)
+				log = append(log, c)
+			}
+		}()
+		rep.Evaluations++
+		rep.Nontrivial++
+		rep.Count("definition_without_instance")
+		if panicked != "" {
+			rep.Violate("C14-accounting", cs, "panic: "+panicked)
+			continue
+		}
+		h2 := make([]int, len(h))
+		for j, e := range h {
+			h2[j] = e
+			if e == skip {
+				h2[j] = n
+			}
+		}
+		fl := flagsOf(log)
+		fires := 0
+		for _, f := range fl {
+			fires += f
+		}
+		if kind == 1 && fires > 0 {
+			rep.Violate("C14-accounting", cs, fmt.Sprintf("the parallel-multiple catch event fired %d times although one of its definitions can never be matched", fires))
+		}
+		items = append(items, fmt.Sprintf("(%d,%d,%s,%s)", kind, n, natList(h2), natList(fl)))
 	}
 	rep.Exhaustive = false
 	// shard the cases file (vm_compute + parsing scale linearly; keep files moderate)
